@@ -12,6 +12,18 @@ def AnalogPayload_Header_getFlags_prog  : List Op × Nat :=
 def AnalogPayload_Header_getSampleDt_prog  : List Op × Nat :=
   ([.rd 0 2, .const 768, .trunc 16 1, .band 0 2, .trunc 16 3], 4)
 
+/-- bit program of `ASAM::CMP::AnalogPayload::Header::getSampleInterval` (val result) -/
+def AnalogPayload_Header_getSampleInterval_prog  : List Op × Nat :=
+  ([.rd 4 4, .const 0, .ushr 32 0 24, .trunc 8 2, .trunc 8 3, .const 4294967040, .band 1 5, .bor 6 4, .ushr 32 0 16, .trunc 8 8, .trunc 8 9, .ushl 32 10 8, .const 4294902015, .band 7 12, .bor 13 11, .ushr 32 0 8, .trunc 8 15, .trunc 8 16, .ushl 32 17 16, .const 4278255615, .band 14 19, .bor 20 18, .trunc 8 0, .trunc 8 22, .ushl 32 23 24, .const 16777215, .band 21 25, .bor 26 24], 27)
+
+/-- bit program of `ASAM::CMP::AnalogPayload::Header::getSampleOffset` (val result) -/
+def AnalogPayload_Header_getSampleOffset_prog  : List Op × Nat :=
+  ([.rd 8 4, .const 0, .ushr 32 0 24, .trunc 8 2, .trunc 8 3, .const 4294967040, .band 1 5, .bor 6 4, .ushr 32 0 16, .trunc 8 8, .trunc 8 9, .ushl 32 10 8, .const 4294902015, .band 7 12, .bor 13 11, .ushr 32 0 8, .trunc 8 15, .trunc 8 16, .ushl 32 17 16, .const 4278255615, .band 14 19, .bor 20 18, .trunc 8 0, .trunc 8 22, .ushl 32 23 24, .const 16777215, .band 21 25, .bor 26 24], 27)
+
+/-- bit program of `ASAM::CMP::AnalogPayload::Header::getSampleScalar` (val result) -/
+def AnalogPayload_Header_getSampleScalar_prog  : List Op × Nat :=
+  ([.rd 12 4, .const 0, .ushr 32 0 24, .trunc 8 2, .trunc 8 3, .const 4294967040, .band 1 5, .bor 6 4, .ushr 32 0 16, .trunc 8 8, .trunc 8 9, .ushl 32 10 8, .const 4294902015, .band 7 12, .bor 13 11, .ushr 32 0 8, .trunc 8 15, .trunc 8 16, .ushl 32 17 16, .const 4278255615, .band 14 19, .bor 20 18, .trunc 8 0, .trunc 8 22, .ushl 32 23 24, .const 16777215, .band 21 25, .bor 26 24], 27)
+
 /-- bit program of `ASAM::CMP::AnalogPayload::Header::getUnit` (val result) -/
 def AnalogPayload_Header_getUnit_prog  : List Op × Nat :=
   ([.rd 3 1], 0)
@@ -23,6 +35,18 @@ def AnalogPayload_Header_setFlags_prog (p_newFlags : Op) : List Op × Nat :=
 /-- bit program of `ASAM::CMP::AnalogPayload::Header::setSampleDt` (void result) -/
 def AnalogPayload_Header_setSampleDt_prog (p_sampleDt : Op) : List Op × Nat :=
   ([p_sampleDt, .const 768, .trunc 16 1, .bnot 32 2, .rd 0 2, .band 4 3, .trunc 16 5, .wr 0 2 6, .rd 0 2, .bor 8 0, .trunc 16 9, .wr 0 2 10], 0)
+
+/-- bit program of `ASAM::CMP::AnalogPayload::Header::setSampleInterval` (void result) -/
+def AnalogPayload_Header_setSampleInterval_prog (p_interval : Op) : List Op × Nat :=
+  ([p_interval, .const 0, .ushr 32 0 24, .trunc 8 2, .trunc 8 3, .const 4294967040, .band 1 5, .bor 6 4, .ushr 32 0 16, .trunc 8 8, .trunc 8 9, .ushl 32 10 8, .const 4294902015, .band 7 12, .bor 13 11, .ushr 32 0 8, .trunc 8 15, .trunc 8 16, .ushl 32 17 16, .const 4278255615, .band 14 19, .bor 20 18, .trunc 8 0, .trunc 8 22, .ushl 32 23 24, .const 16777215, .band 21 25, .bor 26 24, .wr 4 4 27], 0)
+
+/-- bit program of `ASAM::CMP::AnalogPayload::Header::setSampleOffset` (void result) -/
+def AnalogPayload_Header_setSampleOffset_prog (p_offset : Op) : List Op × Nat :=
+  ([p_offset, .const 0, .ushr 32 0 24, .trunc 8 2, .trunc 8 3, .const 4294967040, .band 1 5, .bor 6 4, .ushr 32 0 16, .trunc 8 8, .trunc 8 9, .ushl 32 10 8, .const 4294902015, .band 7 12, .bor 13 11, .ushr 32 0 8, .trunc 8 15, .trunc 8 16, .ushl 32 17 16, .const 4278255615, .band 14 19, .bor 20 18, .trunc 8 0, .trunc 8 22, .ushl 32 23 24, .const 16777215, .band 21 25, .bor 26 24, .wr 8 4 27], 0)
+
+/-- bit program of `ASAM::CMP::AnalogPayload::Header::setSampleScalar` (void result) -/
+def AnalogPayload_Header_setSampleScalar_prog (p_scalar : Op) : List Op × Nat :=
+  ([p_scalar, .const 0, .ushr 32 0 24, .trunc 8 2, .trunc 8 3, .const 4294967040, .band 1 5, .bor 6 4, .ushr 32 0 16, .trunc 8 8, .trunc 8 9, .ushl 32 10 8, .const 4294902015, .band 7 12, .bor 13 11, .ushr 32 0 8, .trunc 8 15, .trunc 8 16, .ushl 32 17 16, .const 4278255615, .band 14 19, .bor 20 18, .trunc 8 0, .trunc 8 22, .ushl 32 23 24, .const 16777215, .band 21 25, .bor 26 24, .wr 12 4 27], 0)
 
 /-- bit program of `ASAM::CMP::AnalogPayload::Header::setUnit` (void result) -/
 def AnalogPayload_Header_setUnit_prog (p_newUnit : Op) : List Op × Nat :=
@@ -36,6 +60,18 @@ def AnalogPayload_getFlags_prog  : List Op × Nat :=
 def AnalogPayload_getSampleDt_prog  : List Op × Nat :=
   ([.rd 0 2, .const 768, .trunc 16 1, .band 0 2, .trunc 16 3], 4)
 
+/-- bit program of `ASAM::CMP::AnalogPayload::getSampleInterval` (val result) -/
+def AnalogPayload_getSampleInterval_prog  : List Op × Nat :=
+  ([.rd 4 4, .const 0, .ushr 32 0 24, .trunc 8 2, .trunc 8 3, .const 4294967040, .band 1 5, .bor 6 4, .ushr 32 0 16, .trunc 8 8, .trunc 8 9, .ushl 32 10 8, .const 4294902015, .band 7 12, .bor 13 11, .ushr 32 0 8, .trunc 8 15, .trunc 8 16, .ushl 32 17 16, .const 4278255615, .band 14 19, .bor 20 18, .trunc 8 0, .trunc 8 22, .ushl 32 23 24, .const 16777215, .band 21 25, .bor 26 24], 27)
+
+/-- bit program of `ASAM::CMP::AnalogPayload::getSampleOffset` (val result) -/
+def AnalogPayload_getSampleOffset_prog  : List Op × Nat :=
+  ([.rd 8 4, .const 0, .ushr 32 0 24, .trunc 8 2, .trunc 8 3, .const 4294967040, .band 1 5, .bor 6 4, .ushr 32 0 16, .trunc 8 8, .trunc 8 9, .ushl 32 10 8, .const 4294902015, .band 7 12, .bor 13 11, .ushr 32 0 8, .trunc 8 15, .trunc 8 16, .ushl 32 17 16, .const 4278255615, .band 14 19, .bor 20 18, .trunc 8 0, .trunc 8 22, .ushl 32 23 24, .const 16777215, .band 21 25, .bor 26 24], 27)
+
+/-- bit program of `ASAM::CMP::AnalogPayload::getSampleScalar` (val result) -/
+def AnalogPayload_getSampleScalar_prog  : List Op × Nat :=
+  ([.rd 12 4, .const 0, .ushr 32 0 24, .trunc 8 2, .trunc 8 3, .const 4294967040, .band 1 5, .bor 6 4, .ushr 32 0 16, .trunc 8 8, .trunc 8 9, .ushl 32 10 8, .const 4294902015, .band 7 12, .bor 13 11, .ushr 32 0 8, .trunc 8 15, .trunc 8 16, .ushl 32 17 16, .const 4278255615, .band 14 19, .bor 20 18, .trunc 8 0, .trunc 8 22, .ushl 32 23 24, .const 16777215, .band 21 25, .bor 26 24], 27)
+
 /-- bit program of `ASAM::CMP::AnalogPayload::getUnit` (val result) -/
 def AnalogPayload_getUnit_prog  : List Op × Nat :=
   ([.rd 3 1], 0)
@@ -47,6 +83,18 @@ def AnalogPayload_setFlags_prog (p_flags : Op) : List Op × Nat :=
 /-- bit program of `ASAM::CMP::AnalogPayload::setSampleDt` (void result) -/
 def AnalogPayload_setSampleDt_prog (p_sampleDt : Op) : List Op × Nat :=
   ([p_sampleDt, .const 768, .trunc 16 1, .bnot 32 2, .rd 0 2, .band 4 3, .trunc 16 5, .wr 0 2 6, .rd 0 2, .bor 8 0, .trunc 16 9, .wr 0 2 10], 0)
+
+/-- bit program of `ASAM::CMP::AnalogPayload::setSampleInterval` (void result) -/
+def AnalogPayload_setSampleInterval_prog (p_sampleInterval : Op) : List Op × Nat :=
+  ([p_sampleInterval, .const 0, .ushr 32 0 24, .trunc 8 2, .trunc 8 3, .const 4294967040, .band 1 5, .bor 6 4, .ushr 32 0 16, .trunc 8 8, .trunc 8 9, .ushl 32 10 8, .const 4294902015, .band 7 12, .bor 13 11, .ushr 32 0 8, .trunc 8 15, .trunc 8 16, .ushl 32 17 16, .const 4278255615, .band 14 19, .bor 20 18, .trunc 8 0, .trunc 8 22, .ushl 32 23 24, .const 16777215, .band 21 25, .bor 26 24, .wr 4 4 27], 0)
+
+/-- bit program of `ASAM::CMP::AnalogPayload::setSampleOffset` (void result) -/
+def AnalogPayload_setSampleOffset_prog (p_sampleOffset : Op) : List Op × Nat :=
+  ([p_sampleOffset, .const 0, .ushr 32 0 24, .trunc 8 2, .trunc 8 3, .const 4294967040, .band 1 5, .bor 6 4, .ushr 32 0 16, .trunc 8 8, .trunc 8 9, .ushl 32 10 8, .const 4294902015, .band 7 12, .bor 13 11, .ushr 32 0 8, .trunc 8 15, .trunc 8 16, .ushl 32 17 16, .const 4278255615, .band 14 19, .bor 20 18, .trunc 8 0, .trunc 8 22, .ushl 32 23 24, .const 16777215, .band 21 25, .bor 26 24, .wr 8 4 27], 0)
+
+/-- bit program of `ASAM::CMP::AnalogPayload::setSampleScalar` (void result) -/
+def AnalogPayload_setSampleScalar_prog (p_sampleScalar : Op) : List Op × Nat :=
+  ([p_sampleScalar, .const 0, .ushr 32 0 24, .trunc 8 2, .trunc 8 3, .const 4294967040, .band 1 5, .bor 6 4, .ushr 32 0 16, .trunc 8 8, .trunc 8 9, .ushl 32 10 8, .const 4294902015, .band 7 12, .bor 13 11, .ushr 32 0 8, .trunc 8 15, .trunc 8 16, .ushl 32 17 16, .const 4278255615, .band 14 19, .bor 20 18, .trunc 8 0, .trunc 8 22, .ushl 32 23 24, .const 16777215, .band 21 25, .bor 26 24, .wr 12 4 27], 0)
 
 /-- bit program of `ASAM::CMP::AnalogPayload::setUnit` (void result) -/
 def AnalogPayload_setUnit_prog (p_unit : Op) : List Op × Nat :=
@@ -945,6 +993,10 @@ def PayloadType_setRawPayloadType_prog (p_newType : Op) : List Op × Nat :=
 /-- bit program of `ASAM::CMP::PayloadType::setType` (void result) -/
 def PayloadType_setType_prog (p_newType : Op) : List Op × Nat :=
   ([p_newType, .wr 0 4 0], 0)
+
+/-- bit program of `ASAM::CMP::swapEndian` (val result) -/
+def swapEndian_prog (p_inFloat : Op) : List Op × Nat :=
+  ([p_inFloat, .const 0, .ushr 32 0 24, .trunc 8 2, .trunc 8 3, .const 4294967040, .band 1 5, .bor 6 4, .ushr 32 0 16, .trunc 8 8, .trunc 8 9, .ushl 32 10 8, .const 4294902015, .band 7 12, .bor 13 11, .ushr 32 0 8, .trunc 8 15, .trunc 8 16, .ushl 32 17 16, .const 4278255615, .band 14 19, .bor 20 18, .trunc 8 0, .trunc 8 22, .ushl 32 23 24, .const 16777215, .band 21 25, .bor 26 24], 27)
 
 /-- bit program of `ASAM::CMP::swapEndian` (val result) -/
 def swapEndian_u16_prog (p_value : Op) : List Op × Nat :=
@@ -1919,8 +1971,16 @@ def entries_eth : List Entry := [
 def entries_analog : List Entry := [
   ⟨"flags", "get", .get AnalogPayload_getFlags_prog 0⟩,
   ⟨"flags", "set", .set (AnalogPayload_setFlags_prog (.arg 0)) 0 0⟩,
+  ⟨"sampleDt", "get", .get AnalogPayload_getSampleDt_prog 8⟩,
+  ⟨"sampleDt", "set", .set (AnalogPayload_setSampleDt_prog (.arg 0)) 0 8⟩,
   ⟨"unit", "get", .get AnalogPayload_getUnit_prog 0⟩,
-  ⟨"unit", "set", .set (AnalogPayload_setUnit_prog (.arg 0)) 0 0⟩
+  ⟨"unit", "set", .set (AnalogPayload_setUnit_prog (.arg 0)) 0 0⟩,
+  ⟨"sampleInterval", "get", .get AnalogPayload_getSampleInterval_prog 0⟩,
+  ⟨"sampleInterval", "set", .set (AnalogPayload_setSampleInterval_prog (.arg 0)) 0 0⟩,
+  ⟨"sampleOffset", "get", .get AnalogPayload_getSampleOffset_prog 0⟩,
+  ⟨"sampleOffset", "set", .set (AnalogPayload_setSampleOffset_prog (.arg 0)) 0 0⟩,
+  ⟨"sampleScalar", "get", .get AnalogPayload_getSampleScalar_prog 0⟩,
+  ⟨"sampleScalar", "set", .set (AnalogPayload_setSampleScalar_prog (.arg 0)) 0 0⟩
 ]
 
 def entries_cm : List Entry := [
@@ -2076,14 +2136,7 @@ def entries_ptype : List Entry := [
 
 /-- accessors of the protocol table's fields without an entry, with the reason -/
 def notCovered : List String := [
-  "analog.sampleDt get: glue outside the pattern",
-  "analog.sampleDt set: glue / kind mismatch",
-  "analog.sampleInterval get: glue outside the pattern",
-  "analog.sampleInterval set: no bit program for setSampleInterval",
-  "analog.sampleOffset get: glue outside the pattern",
-  "analog.sampleOffset set: no bit program for setSampleOffset",
-  "analog.sampleScalar get: glue outside the pattern",
-  "analog.sampleScalar set: no bit program for setSampleScalar"
+
 ]
 
 end AsamCmp.SrcGen
